@@ -131,6 +131,50 @@ fn quant_cases(drv: &mut Drv, rep: &mut Report, rng: &mut Rng, n: usize) {
     }
 }
 
+/// the loop-filter driver `Vp8Decoder::loop_filter` over whole frames (hook 73798e6) against the
+/// model Vp8LF.filterFrame: display sizes with every residue mod 16 (the planes are macroblock
+/// aligned; only the displayed part is compared, the padding beyond it must still be filtered
+/// because filters applied to displayed samples read it), both filter types, every sharpness,
+/// levels 1..63, random B_PRED / coefficient flags, planes that are smooth enough for the filters
+/// to engage (ramps + small noise + block steps)
+fn loopfilter_cases(drv: &mut Drv, rep: &mut Report, rng: &mut Rng, n: usize) {
+    for i in 0..n {
+        let (w, h) = match i % 4 { 0 => (1 + rng.below(40) as usize, 1 + rng.below(40) as usize), 1 => (17 + rng.below(16) as usize, [3usize, 7, 11, 19, 23, 27][rng.below(6) as usize]), 2 => ([3usize, 7, 11, 19, 23, 27][rng.below(6) as usize], 17 + rng.below(16) as usize), _ => (16 * (1 + rng.below(2) as usize) + rng.below(16) as usize, 16 * (1 + rng.below(2) as usize) + rng.below(16) as usize) };
+        let (mbw, mbh) = (w.div_ceil(16), h.div_ceil(16));
+        let simple = rng.chance(1, 4);
+        let sharp = if rng.chance(1, 3) { 0 } else { rng.below(8) as u8 };
+        let level = match rng.below(4) { 0 => 1 + rng.below(14) as u8, 1 => 15 + rng.below(25) as u8, 2 => 40 + rng.below(24) as u8, _ => *rng.pick(&[1u8, 14, 15, 39, 40, 63]) };
+        let amp = *rng.pick(&[1u64, 2, 3, 5, 9, 20]);
+        let step = *rng.pick(&[0u64, 2, 4, 8, 30]);
+        let plane = |rng: &mut Rng, pw: usize, ph: usize, blk: usize| -> Vec<u8> {
+            let (gx, gy, base) = (rng.below(4) as i64, rng.below(4) as i64, 40 + rng.below(150) as i64);
+            let bw = pw / blk;
+            let offs: Vec<i64> = (0..bw * (ph / blk)).map(|_| if step == 0 { 0 } else { rng.below(2 * step + 1) as i64 - step as i64 }).collect();
+            (0..pw * ph).map(|k| { let (x, y) = ((k % pw) as i64, (k / pw) as i64); (base + gx * x / 2 + gy * y / 2 + offs[(k / pw / blk) * bw + (k % pw) / blk] + rng.below(amp) as i64).clamp(0, 255) as u8 }).collect()
+        };
+        let y = plane(rng, mbw * 16, mbh * 16, 4);
+        let u = plane(rng, mbw * 8, mbh * 8, 4);
+        let v = plane(rng, mbw * 8, mbh * 8, 4);
+        let mbs: Vec<(bool, bool)> = (0..mbw * mbh).map(|_| (rng.chance(1, 3), rng.chance(1, 2))).collect();
+        let line = format!("vp8lf {w} {h} {} {sharp} {level} {} {} {} {}", simple as u8, mbs.iter().map(|m| format!("{}{}", m.0 as u8, m.1 as u8)).collect::<String>(), hex(&y), hex(&u), hex(&v));
+        let crop = |b: &[u8], stride: usize, cw: usize, ch: usize| -> Vec<u8> { (0..ch).flat_map(|r| b[r * stride..r * stride + cw].to_vec()).collect() };
+        let got = match catch(|| hk::vp8_loop_filter(w as u16, h as u16, simple, sharp, level, &y, &u, &v, &mbs)) {
+            Ok((fy, fu, fv)) => format!("{} {} {}", hex(&crop(&fy, mbw * 16, w, h)), hex(&crop(&fu, mbw * 8, w.div_ceil(2), h.div_ceil(2))), hex(&crop(&fv, mbw * 8, w.div_ceil(2), h.div_ceil(2)))),
+            Err(m) => format!("PANIC {m}"),
+        };
+        let exp = drv.ask(&line);
+        rep.case(&line, true);
+        rep.hit(if simple { "loopfilter_driver_simple" } else { "loopfilter_driver_normal" });
+        if h % 16 != 0 || w % 16 != 0 { rep.hit("loopfilter_driver_partial_macroblocks"); }
+        let changed = got != format!("{} {} {}", hex(&crop(&y, mbw * 16, w, h)), hex(&crop(&u, mbw * 8, w.div_ceil(2), h.div_ceil(2))), hex(&crop(&v, mbw * 8, w.div_ceil(2), h.div_ceil(2))));
+        if changed { rep.hit("loopfilter_driver_frame_changed_by_filter"); }
+        if got != exp {
+            let k = got.as_bytes().iter().zip(exp.as_bytes()).position(|(a, b)| a != b).unwrap_or(0);
+            rep.disagree(Disagreement { case: line, got: got.chars().skip(k.saturating_sub(8)).take(40).collect(), expected: exp.chars().skip(k.saturating_sub(8)).take(40).collect(), class: "violation", obligation: "C02: the loop filter visits, for every macroblock in raster order, the left macroblock edge, the inner vertical edges, the top macroblock edge and the inner horizontal edges over the whole macroblock (RFC 6386 section 15.2; model Vp8LF.filterFrame) - displayed samples compared".into(), detail: format!("{w}x{h} simple={simple} sharpness={sharp} level={level}; first differing hex position {k} of the y/u/v display planes") });
+        }
+    }
+}
+
 /// `read_coefficients` (hook 99a8eca) against the model Vp8Coef.readCoefficients: random and biased
 /// partitions (long zero runs, end-of-block right away, large categories), the crate's default
 /// probabilities and random ones (incl. 0 and 255), every plane and starting context, several calls
@@ -619,6 +663,7 @@ pub fn run(o: &Opts) -> Report {
     predictor_cases(&mut drv, &mut rep, &mut rng, if o.thorough() { 60000 } else { 6500 });
     coefficient_cases(&mut drv, &mut rep, &mut rng, if o.thorough() { 40000 } else { 4000 });
     quant_cases(&mut drv, &mut rep, &mut rng, if o.thorough() { 40000 } else { 4000 });
+    loopfilter_cases(&mut drv, &mut rep, &mut rng, if o.thorough() { 12000 } else { 900 });
     fparam_cases(&mut drv, &mut rep, &mut rng, if o.thorough() { 100000 } else { 6000 });
     // (b) frames
     let n = if o.thorough() { 1200 } else { 160 };
